@@ -282,3 +282,15 @@ PROPS["C16"] = dict(
     trusted_base=_RT_TRUSTED + ["modelled, not verified: reflect (MethodByName / type name / Kind guards are inputs of the model), Go map iteration order (the theorem quantifies over orders)"],
     assumptions=[],
 )
+
+PROPS["C15"] = dict(
+    n=dict(quick=3000, thorough=40000),
+    consts=["global-vars", "any-match"],
+    rule="case = (a) table of 1..5 named routes without optional parts (static and dynamic, 12 regex kinds, global variables), one route chosen, values drawn from "
+         "each variable's accepted set (for unconstrained variables also spaces, non-ASCII, %, ?, #, &, ;, .., trailing space, brace text, trailing slash; 1/12 "
+         "rejected values), 0..2 extra query arguments, argument style M map / key-value pairs / BuildRequestURL builder; the built URL's Path is fed to Router.Match and "
+         "its String() through http.NewRequest + ServeHTTP; (b) sequences of 1..4 naming operations (AddNamed, NewNamedRoute+AddRoute, NamedTo on an attached / "
+         "unattached route) followed by GetRoute. Non-trivial = build case for a dynamic route.",
+    trusted_base=_RT_TRUSTED + ["modelled, not verified: net/url (escaping of u.String() and parsing back: the tie compares ServeHTTP on the parsed URL with Match on u.Path), goutil.String"],
+    assumptions=["values satisfy their variable's regex and contain no brace; the substituted path is already normalised (otherwise K3)"],
+)
